@@ -808,6 +808,10 @@ Proof.
   - apply IH; [lia|]. intros. apply H. right. assumption.
 Qed.
 
+Lemma Forall2_impl' {A B} (P Q : A -> B -> Prop) : forall l1 l2,
+  (forall x y, P x y -> Q x y) -> Forall2 P l1 l2 -> Forall2 Q l1 l2.
+Proof. intros l1 l2 I H. induction H; constructor; auto. Qed.
+
 Lemma Forall2_and {A B} (P Q : A -> B -> Prop) : forall l1 l2,
   Forall2 P l1 l2 -> Forall2 Q l1 l2 -> Forall2 (fun x y => P x y /\ Q x y) l1 l2.
 Proof.
@@ -829,7 +833,7 @@ Proof.
   { apply Forall2_combine_in; [eapply Forall2_length'; eauto|].
     intros f o Hin x Hx. unfold allw. apply in_concat. exists (owner_terms o f). split; [|exact Hx].
     apply in_map_iff. exists (o, f). split; [reflexivity|exact Hin]. }
-  eapply Forall2_impl; [|exact (Forall2_and _ _ _ _ WI IN)].
+  eapply Forall2_impl'; [|exact (Forall2_and _ _ _ _ WI IN)].
   intros f o [Hw Hi] a v Hn. simpl in *.
   assert (Hall : In (v, wantv f (o_anc o) a) (allw os fs)) by (apply Hi; apply In_owner_terms; exact Hn).
   unfold vfta. destruct (find (fun p => Nat.eqb (fst p) v) (fta st)) as [p|] eqn:Fd.
